@@ -13,7 +13,7 @@ else for d in selftest/*/ seeded/*/; do [ -f $d/patch.diff ] && dirs+=(${d%/}); 
 for d in "${dirs[@]}"; do
   prop=$(python3 -c "import json;print(json.load(open('$d/meta.json'))['property'])")
   # a fixed scratch path keeps the go build cache warm between mutants
-  S=/var/tmp/hvc-self
+  S=${HVC_SELF_DIR:-/var/tmp/hvc-self}   # set HVC_SELF_DIR to run several selftests at the same time
   rm -rf $S; mkdir -p $S/repo && cp -r /repo/teamserver $S/repo/teamserver
   if ! (cd $S/repo && patch -p1 -s < /verif/$d/patch.diff); then echo "SELFTEST $d: patch does not apply"; fail=1; rm -rf $S; continue; fi
   out=$(HVC_REPO=$S/repo/teamserver HVC_OUT=$S/out ${HVC_BIN:-bin/hvc} check $prop --tier quick 2>&1); rc=$?
